@@ -52,7 +52,7 @@ META = {
                     "cell data reaches files only through Exporter._write"],
     "technique": "AST normalisation (one-level helper inlining, copy propagation, loop->comprehension) + writer/reader table extraction with block-local symbolic resolution; permutation direction (gather vs scatter) matching",
 }
-MIN_INSTANCES = {"R1": 7, "R2": 7, "R3": 6, "R4": 3, "R5": 6, "R6": 9, "R7": 1}
+MIN_INSTANCES = {"R1": 7, "R2": 7, "R3": 6, "R4": 3, "R5": 6, "R6": 8, "R7": 1}
 
 
 # ----------------------------------------------------------------------------------------
@@ -189,6 +189,8 @@ def run(ctx: Ctx) -> None:
         keep |= _role_keep(f)
     # normalised deep copies: private one-level helpers inlined, aliases / module constants propagated, idioms unified
     F = {n: norm.function(f, E, inline=True, keep=keep) for n, f in raw.items()}
+    global _HELPERS
+    _HELPERS = (norm, E)
     savers = _nested(F["import_state_from_vtu"], lambda f: any(call_name(c) == "set_solution_values" for c in calls_in(f)))
     if len(savers) != 1:
         raise AnchorError(f"{EXP}: per-grid saver (nested function calling set_solution_values) not found in import_state_from_vtu")
@@ -362,6 +364,9 @@ def _kind_when(scope: ast.AST, test: ast.expr) -> str | None:
 
 # ---------------- R1 ----------------------------------------------------------------------------
 
+_HELPERS = None   # (Normalizer, Exporter class) of the current run: lets block expressions look through helper calls
+
+
 def _expand_block(e: ast.expr, scope: ast.AST, depth: int = 0) -> list[ast.expr]:
     """Alternatives a block expression can take: both arms of a conditional expression; for a local name, every value
     assigned to it inside `scope`."""
@@ -369,6 +374,11 @@ def _expand_block(e: ast.expr, scope: ast.AST, depth: int = 0) -> list[ast.expr]
         return [e]
     if isinstance(e, ast.IfExp):
         return _expand_block(e.body, scope, depth + 1) + _expand_block(e.orelse, scope, depth + 1)
+    if isinstance(e, ast.Call) and _HELPERS is not None:
+        # a private helper picking the block (possibly with early returns): its returned expressions
+        rets = _HELPERS[0].helper_returns(e, _HELPERS[1], keep=KEEP)
+        if rets:
+            return [x for r in rets for x in _expand_block(r, scope, depth + 1)]
     if isinstance(e, ast.Name):
         vals = [s.value for s in ast.walk(scope) if isinstance(s, (ast.Assign, ast.AnnAssign)) and getattr(s, "value", None) is not None
                 and [u(t) for t in assigned_targets(s)] == [e.id]]
@@ -1029,11 +1039,11 @@ def _r5_time_information(ctx: Ctx) -> None:
         if not (isinstance(k, ast.Constant) and isinstance(k.value, str) and isinstance(v, ast.Attribute) and u(v.value) == "self"):
             raise Undecided(f"write_time_information: entry {u(k) if k else None}: {u(v)} is not 'key': self.<attr>")
         written[k.value] = v.attr
-    loads = [s for s in stmts_local(lfn) if isinstance(s, ast.Assign) and isinstance(s.value, ast.Call)
+    loads = [s for s in stmts_local(lfn) if isinstance(s, (ast.Assign, ast.AnnAssign)) and isinstance(getattr(s, "value", None), ast.Call)
              and dotted(s.value.func) in ("json.load", "json.loads")]
-    if len(loads) != 1 or not isinstance(loads[0].targets[0], ast.Name):
+    if len(loads) != 1 or len(assigned_targets(loads[0])) != 1 or not isinstance(assigned_targets(loads[0])[0], ast.Name):
         raise Undecided("load_time_information: json.load not found")
-    dvar = loads[0].targets[0].id
+    dvar = assigned_targets(loads[0])[0].id
     read: dict[str, str] = {}
     for s in stmts_local(lfn):
         if isinstance(s, ast.Assign) and isinstance(s.value, ast.Subscript) and u(s.value.value) == dvar:
@@ -1113,13 +1123,23 @@ def _r6_pvd(ctx: Ctx, exp, F) -> None:
         raise Undecided(f"{q}: branch on the mdg-pvd flag has an empty arm")
     pairs = [("mdg pvd", mdg_body, F["_export_mdg_pvd"], "Exporter._export_mdg_pvd"),
              ("time-series pvd", ts_body, F["write_pvd"], "Exporter.write_pvd")]
+
+    def tag_iters(scope: ast.AST) -> list[ast.Call]:
+        return [c for c in ast.walk(scope) if isinstance(c, ast.Call) and isinstance(c.func, ast.Attribute)
+                and c.func.attr in ("iter", "findall", "iterfind") and c.args and isinstance(c.args[0], ast.Constant)
+                and isinstance(c.args[0].value, str)]
+
+    # collections of attribute dictionaries built once for both branches: X = [e.attrib for e in tree.iter("DataSet")]
+    shared_colls = {t.id for st in body_nodoc(r) if isinstance(st, (ast.Assign, ast.AnnAssign)) and getattr(st, "value", None) is not None
+                    and isinstance(st.value, (ast.ListComp, ast.GeneratorExp)) and _is_attr(st.value.elt, "attrib")
+                    for t in assigned_targets(st) if isinstance(t, ast.Name)}
+    shared_iters = [c for st in body_nodoc(r) if st is not branch[0] for c in tag_iters(st)]
     for label, body, wfn, wq in pairs:
         tags, attrs = _templates(wfn)
         if not tags or not attrs:
             raise AnchorError(f"{wq}: <DataSet .../> template not found")
         wrap = ast.Module(body=body, type_ignores=[])
-        its = [c for c in ast.walk(wrap) if isinstance(c, ast.Call) and isinstance(c.func, ast.Attribute) and c.func.attr in ("iter", "findall", "iterfind")
-               and c.args and isinstance(c.args[0], ast.Constant)]
+        its = tag_iters(wrap) or shared_iters
         if not its:
             raise Undecided(f"{q}: {label} branch does not iterate XML elements by a literal tag")
         for c in its:
@@ -1128,6 +1148,13 @@ def _r6_pvd(ctx: Ctx, exp, F) -> None:
                       construct=f"{label}: iter({tag!r})")
         # names bound to <elem>.attrib
         avars = {t.id for s in ast.walk(wrap) if isinstance(s, ast.Assign) and _is_attr(s.value, "attrib") for t in s.targets if isinstance(t, ast.Name)}
+        # ... or iterating a collection of attribute dictionaries (loop / comprehension target)
+        for n in ast.walk(wrap):
+            gens = n.generators if isinstance(n, (ast.ListComp, ast.GeneratorExp, ast.SetComp, ast.DictComp)) else []
+            pairs_ = [(g.target, g.iter) for g in gens] + ([(n.target, n.iter)] if isinstance(n, ast.For) else [])
+            for tg, it in pairs_:
+                if isinstance(tg, ast.Name) and isinstance(it, ast.Name) and it.id in shared_colls:
+                    avars.add(tg.id)
         keys = []
         for n in ast.walk(wrap):
             if isinstance(n, ast.Subscript) and isinstance(n.slice, ast.Constant) and isinstance(n.slice.value, str) and \
